@@ -71,6 +71,10 @@ CHECKS = {
             "Generated textbook expressions x every braille code x highlight style, after random navigation moves; every node id (and a foreign id) is highlighted, the braille position is read and every cell index (plus huge positions) is routed; results must succeed for own ids / inside positions, stay within the braille, name ids of the expression, equal the plain braille when highlighting is off or the id is foreign, and leave the highlight preference, navigation position, speech and plain braille unchanged.",
             "Clause 'highlighting only adds dots' is a known finding for all cell codes (clean-up passes do not recognise highlighted cells) and is keyed per code.",
             "DESIGN.md 3/C20"),
+    "C11": ("stateful property-based testing of navigation histories: invariants after every step plus a fresh-session suffix model",
+            "Generated histories of navigation commands (all 74 names), key presses, set_navigation_node and changes of expression x NavMode x Overview x AutoZoomOut x NavVerbosity in fresh sessions; after every step the navigation id is an id of the current expression and its MathML can be retrieved; the position is the root after set_mathml; read-only commands do not move; MoveToK returns to SetPlacemarkerK; MoveLastLocation undoes the last move; the positions reached since the last set_mathml equal (as tree paths) those of the same commands in a fresh session.",
+            "The optional stack-balance hook was not needed: everything is observed through the public API. The suffix model is skipped when modes were toggled before the last set_mathml (NavMode persists by design).",
+            "DESIGN.md 3/C11"),
 }
 
 NOT_YET = "check not built yet in this round (machinery in progress; see DESIGN.md section 7 build order)"
